@@ -46,7 +46,8 @@ type qStatus struct {
 
 type Observer struct {
 	QStatus   map[string][]qStatus // per queue name
-	StopSeq   int64 // seq at which TaskQueueSet.WaitStopWithTimeout was entered (= TaskQueues.Stop() returned)
+	NsiStart  map[string]int64     // monitor id -> seq at which its namespace informer was started
+	StopSeq   int64                // seq at which TaskQueueSet.WaitStopWithTimeout was entered (= TaskQueues.Stop() returned)
 	StopAt    time.Duration
 	e         *Env
 	ris       map[any]*riObs
@@ -55,7 +56,7 @@ type Observer struct {
 }
 
 func NewObserver(e *Env) *Observer {
-	o := &Observer{e: e, ris: map[any]*riObs{}, QStatus: map[string][]qStatus{}, pendingL1: map[int64]*riObs{}}
+	o := &Observer{e: e, ris: map[any]*riObs{}, QStatus: map[string][]qStatus{}, NsiStart: map[string]int64{}, pendingL1: map[int64]*riObs{}}
 	e.S.Observer = o.observe
 	return o
 }
@@ -76,6 +77,10 @@ func (o *Observer) observe(name string, args ...any) {
 		if o.StopSeq == 0 {
 			o.StopSeq = o.e.Seq()
 			o.StopAt = o.e.Since()
+		}
+	case "nsi.start":
+		if _, ok := o.NsiStart[fmt.Sprint(args[0])]; !ok {
+			o.NsiStart[fmt.Sprint(args[0])] = o.e.Seq()
 		}
 	case "tq.status":
 		qn := fmt.Sprint(args[0])
